@@ -274,7 +274,7 @@ Step ==
             LET a == Eval(R, mem, I.s[1])  b == Eval(R, mem, I.s[2]) IN
             IF IsBad(a) THEN GoUndef(a.why) ELSE IF IsBad(b) THEN GoUndef(b.why)
             ELSE IF op \in {"add", "sub"} /\ a.t = "p" /\ b.t = "i"      \* pointer arithmetic stays inside the model
-                 THEN IF FitsNat(b.w) /\ ToNat(b.w) < 4096
+                 THEN IF FitsNat(b.w) /\ ToNat(b.w) < 70000
                       THEN WriteDst(I.d, PtrV(a.b, IF op = "add" THEN a.o + ToNat(b.w) ELSE a.o - ToNat(b.w)), nxt, NoOvf)
                       ELSE GoUndef("pointer arithmetic out of modelled range")
             ELSE IF op = "add" /\ a.t = "l" /\ b.t = "ld" /\ a.f = b.f /\ a.l = b.b /\ b.d = 0     \* label + (label2 - label) = label2
@@ -359,7 +359,7 @@ Step ==
             LET v == RegVal(R, I.s[1].r) IN
             IF IsBad(v) THEN GoUndef(v.why)
             ELSE IF v.t # "sm" \/ v.fid # Top.id THEN GoUndef("bend of something that bstart of this activation did not save")
-            ELSE /\ mem' = [b \in 1..Len(mem) |-> IF b > v.n THEN [mem[b] EXCEPT !.live = FALSE] ELSE mem[b]]
+            ELSE /\ mem' = [b \in 1..Len(mem) |-> IF b > v.n THEN [mem[b] EXCEPT !.live = FALSE, !.cells = <<>>] ELSE mem[b]]   \* dead: never read again
                  /\ frames' = SetTop([Top EXCEPT !.pc = nxt, !.ovf = NoOvf])
                  /\ UNCHANGED <<prog, log, status, why, result>>
        [] op = "va_start" ->
@@ -393,7 +393,7 @@ Step ==
        [] op = "alloca" ->
             LET a == AsInt(Eval(R, mem, I.s[1])) IN
             IF IsBad(a) THEN GoUndef(a.why)
-            ELSE IF ~(FitsNat(a.w) /\ ToNat(a.w) <= 256) THEN GoUndef("alloca size out of modelled range")
+            ELSE IF ~(FitsNat(a.w) /\ ToNat(a.w) <= 70000) THEN GoUndef("alloca size out of modelled range")
             ELSE /\ mem' = Append(mem, [sz |-> ToNat(a.w), live |-> TRUE, cells |-> [i \in 1..ToNat(a.w) |-> UndefC]])
                  /\ frames' = SetTop([Top EXCEPT !.regs[I.d.r] = PtrV(Len(mem) + 1, 0), !.pc = nxt, !.ovf = NoOvf])
                  /\ UNCHANGED <<log, status, why, result>>
@@ -447,7 +447,7 @@ Step ==
                 rts == Fn(Top).res
                 outv == [i \in 1..Len(vals) |-> Narrow(rts[i], vals[i])]
                 \* allocas of the returning frame die
-                mem2 == [b \in 1..Len(mem) |-> IF b > Top.base THEN [mem[b] EXCEPT !.live = FALSE] ELSE mem[b]] IN
+                mem2 == [b \in 1..Len(mem) |-> IF b > Top.base THEN [mem[b] EXCEPT !.live = FALSE, !.cells = <<>>] ELSE mem[b]] IN
             IF badv # {} THEN GoUndef(vals[CHOOSE i \in badv : TRUE].why)
             ELSE IF Len(frames) = 1
             THEN /\ status' = "done" /\ result' = outv /\ mem' = mem2
@@ -462,7 +462,7 @@ Step ==
                  /\ UNCHANGED <<log, status, why, result>>
 
 (* falling off the end of a function or exceeding the step bound are not behaviours we replay *)
-StepBound == 400
+StepBound == IF "bound" \in DOMAIN prog THEN prog.bound ELSE 400      \* long-running family programs bring their own bound
 Guarded ==
   IF status = "run" /\ (steps >= StepBound \/ Top.pc > Len(Fn(Top).insns))
   THEN /\ status' = "undef" /\ why' = "step bound or fell off the end" /\ steps' = steps
